@@ -28,7 +28,7 @@ class ArrayFlattener(ElabPass):
         while module.instarrays:
             name, array = module.instarrays.popitem()
             self.stack.append(array)
-            module.namespace.pop(name)
+            self.dissolve(module, name)
 
             # Visit the array's target
             target = self.elaborate_instance_base(array)
@@ -41,7 +41,7 @@ class ArrayFlattener(ElabPass):
             new_insts = []
             for k in range(array.n):
                 name = self.flatname(
-                    segments=[array.name, str(k)], avoid=module.namespace
+                    segments=[array.name, str(k)], avoid=self.taken(module)
                 )
                 inst = module.add(Instance(of=target, name=name))
                 new_insts.append(inst)
